@@ -21,6 +21,7 @@ structure Hyp where
 structure MState where
   w : World := {}
   hyp : Hyp := {}
+  slow : Bool := false     -- the trace was recorded with a log sink that takes its time: clauses about *when* do not apply
   deriving Repr, Inhabited
 
 namespace Mon
@@ -245,6 +246,14 @@ def deadlines (w : World) (t : Nat) : World :=
     let acc := match x.jitterSuspect with
       | some (d, msg) => if d < t then failW (acc.updInst x.cfg.id fun y => { y with jitterSuspect := none }) "C17" "round-without-jitter" msg else acc
       | none => acc
+    -- C06 / C02: an acquiring write that the store acknowledged makes its writer the leader (unless it has been stopped
+    -- meanwhile): a record that names a running instance which does not claim it keeps everybody else out for a TTL
+    let acc := match x.claimDue with
+      | some d => if d < t then
+            failW (acc.updInst x.cfg.id fun y => { y with claimDue := none }) "C06" "acquired-but-not-claimed"
+              s!"instance {x.cfg.id}: its acquiring write was acknowledged at {d - 200000000}, it is running and reachable, and by {t} it has not reported leadership: the record keeps the other candidates out"
+          else acc
+      | none => acc
     let acc := match x.spacingSuspect with
       | some (d, msg) => if d < t then failW (acc.updInst x.cfg.id fun y => { y with spacingSuspect := none }) "C17" "attempts-not-spaced" msg else acc
       | none => acc
@@ -344,6 +353,7 @@ def step (m : MState) (e : TEv) : MState :=
   -- (the final goroutine count comes after `end`, when the harness has torn everything down: no deadline applies then)
   let w0 : World := { m.w with line := m.w.line + 1 }
   let w0 := if m.w.ended then w0 else
+    if m.slow then w0 else
     deadlinesTakeover (deadlinesVacancy (deadlinesHB (deadlines w0 e.t) e.t) m.hyp.maxLat m.hyp.faultsEnd e.t) m.hyp e.t
   let w0 := { w0 with now := e.t }
   let h := m.hyp
@@ -351,6 +361,7 @@ def step (m : MState) (e : TEv) : MState :=
   if m.w.ended && (match e.ev with | .gor _ => false | .wleft _ => false | _ => true) then { m with w := w0 } else
   match e.ev with
   | .hyp a b c d f ml fe => { m with w := w0, hyp := ⟨a, b, c, d, f, ml, fe⟩ }
+  | .slowSink => { m with w := w0, slow := true }
   | .inst c => { m with w := { w0 with insts := w0.insts ++ [{ cfg := c }] } }
   | .call op i kind key exp val =>
     let stopDel := w0.apis.any fun a => a.inst == i && (match a.kind with | .stopctx d _ _ _ => d | _ => false)
@@ -504,6 +515,12 @@ def step (m : MState) (e : TEv) : MState :=
           if (p.kind == OpKind.create || p.kind == OpKind.update) && id == p.inst && !x.flag && x.stopCalledSince.isSome && x.runToks.contains tok
           then w.updInst p.inst fun y => { y with orphanTok := some tok } else w
         | _, _, _ => w
+      let w := match r, p.val, w.inst? p.inst with
+        | .ok _ _, .own id _ _, some x =>
+          if (p.kind == OpKind.create || (p.kind == OpKind.update && p.site == "attemptPriorityTakeover")) && id == p.inst &&
+             !x.flag && x.stopCalledSince.isNone && !x.cut
+          then w.updInst p.inst fun y => { y with claimDue := some (e.t + 200000000) } else w
+        | _, _, _ => w
       let w := match r, p.kind with
         | .ok rev _, .create => w.updInst p.inst fun y => { y with lastAckRev := rev, lastAckAt := e.t, lastAcqRev := rev, lastAcqAt := e.t }
         | .ok rev _, .update =>
@@ -586,7 +603,7 @@ def step (m : MState) (e : TEv) : MState :=
   | .cancelCtx i =>
     -- the application ends the run by cancelling the context it passed to Start ("the election will stop gracefully"):
     -- from here on the instance is not expected to lead, compete or refresh; a leader must step down (C03 / C08 clauses apply)
-    { m with w := w0.updInst i fun x => { x with stopCalledSince := some e.t, graceDue := none, verifyOpen := none } }
+    { m with w := w0.updInst i fun x => { x with stopCalledSince := some e.t, graceDue := none, verifyOpen := none, claimDue := none } }
   | .site op fn =>
     -- C09: background activity ends as soon as operations already in flight return — an operation that a background
     -- goroutine issues after a stop call began is remembered and judged when that call returns successfully
@@ -620,7 +637,7 @@ def step (m : MState) (e : TEv) : MState :=
         let w := checkW w (lid = i) "C18" "leader-leaderid" s!"instance {i} is leader but LeaderID() is {lid}"
         let w := checkW w (¬ x.flag ∨ x.flagTok = tok) "C05" "token-changed-within-term" s!"instance {i}: token {x.flagTok} → {tok} while leading"
         let w := checkW w (x.flag ∨ ¬ x.claimedToks.contains tok) "C05" "token-reclaimed" s!"instance {i} starts a second term with token {tok}"
-        let w := w.setInst { x with flag := true, flagTok := tok, gauge := b, claimedToks := tok :: x.claimedToks,
+        let w := w.setInst { x with flag := true, flagTok := tok, gauge := b, claimDue := none, claimedToks := tok :: x.claimedToks,
                                      healthRun := if x.flag then x.healthRun else 0,
                                      lastHealthAt := if x.flag then x.lastHealthAt else none,
                                      hbLastOkStart := if x.flag then x.hbLastOkStart else e.t,
@@ -667,12 +684,14 @@ def step (m : MState) (e : TEv) : MState :=
     | some x =>
       let w := checkW w0 (¬ x.termOpen) "C08" "promote-twice" s!"instance {i}: promotion callback while a term is already open"
       let w := checkW w (x.claimedToks.head? = some tok) "C08" "promote-wrong-token" s!"instance {i}: callback token {tok}, term token {x.claimedToks.head?}"
+      -- C05: every term has its own token and one promotion callback: no two callbacks are handed the same token
+      let w := checkW w (!x.promoToks.contains tok) "C05" "callback-token-repeated" s!"instance {i}: a second promotion callback is handed token {tok} (the callback of an earlier term reads the token when it is called, not when the term began)"
       let w := checkW w (x.stoppedSince.isNone) "C09" "promote-after-stop" s!"instance {i}: promotion callback after its stop returned"
       -- (a stop call in progress, or the application's own cancellation of the run's context, is ending the term: the
       --  flag is lowered before the callback is awaited, the gauge event comes at the end of the critical section)
       let w := checkW w (!(dn && x.flag && x.stopCalledSince.isNone)) "C19" "context-cancelled-at-start" s!"instance {i}: promotion context {cid} already cancelled when the callback starts"
       let c : CtxW := { cid := cid, tok := tok, cancelled := dn, termEnded := !x.flag || x.flagTok != tok || x.stopCalledSince.isSome }
-      let x1 : InstW := { x with termOpen := true, promotes := x.promotes + 1, ctxs := c :: x.ctxs }
+      let x1 : InstW := { x with termOpen := true, promotes := x.promotes + 1, ctxs := c :: x.ctxs, promoToks := tok :: x.promoToks }
       { m with w := w.setInst x1 }
   | .promoteRet i cid =>
     { m with w := w0.updInst i fun x => { x with ctxs := x.ctxs.map fun c => if c.cid = cid then { c with cbRunning := false } else c } }
@@ -706,7 +725,7 @@ def step (m : MState) (e : TEv) : MState :=
       | .validate _ | .validateOrDemote _ => verifyTrack w
       | .stop | .stopctx _ _ _ _ => (match w.inst? i with | some x => earlyCancelled w x e.t | none => w).updInst i fun x =>
           let y := endTerm x
-          { y with stopsInProgress := x.stopsInProgress + 1, stopCalledSince := some e.t, graceDue := none, verifyOpen := none }
+          { y with stopsInProgress := x.stopsInProgress + 1, stopCalledSince := some e.t, graceDue := none, verifyOpen := none, claimDue := none }
     { m with w := w }
   | .apiRet n i r =>
     match w0.apis.find? (·.n = n), w0.inst? i with
@@ -762,7 +781,9 @@ def step (m : MState) (e : TEv) : MState :=
           let w := w.hit (if v then "C04:or-demote-true" else if a.flagAtCall then "C04:or-demote-false-leader" else "C04:or-demote-false-follower")
           let w := checkW w (!v || (tok != 0 && a.sawValid.contains tok && a.flagAtCall && tok == a.tokAtCall)) "C04" "validate-true-unsound"
             s!"instance {i}: ValidateTokenOrDemote returned true for token {tok}, but during the call the record never held its id with that token (seen: {a.sawValid})"
-          let w := checkW w (v ∨ ¬ il) "C04" "or-demote-still-leader" s!"instance {i}: ValidateTokenOrDemote returned false but IsLeader() is still true"
+          -- (the term that the call judged: an instance that lost it and leads again, with a new token, by the time the call
+          --  returns has been demoted as required)
+          let w := checkW w (v ∨ ¬ il ∨ (x.flag ∧ x.flagTok ≠ a.tokAtCall)) "C04" "or-demote-still-leader" s!"instance {i}: ValidateTokenOrDemote returned false but IsLeader() is still true"
           checkW w (v ∨ ¬ a.flagAtCall ∨ x.demotes > a.demotesAtCall ∨ x.stopsInProgress > 0 ∨ ¬ x.termOpen ∨ x.cfg.id = 0)
             "C04" "or-demote-no-callback" s!"instance {i}: ValidateTokenOrDemote returned false for a leader but no demotion callback ran"
         | _, _ => w
@@ -847,8 +868,8 @@ def step (m : MState) (e : TEv) : MState :=
         let w1 := if x.flag then w0.hit "C11:reconnect-while-leading" else w0
         { m with w := w1.setInst x1 }
       | .closed => { m with w := w0 }
-  | .crash i => { m with w := w0.updInst i fun x => { x with cut := true } }
-  | .partition i on => { m with w := w0.updInst i fun x => { x with cut := on, candidateSince := e.t } }
+  | .crash i => { m with w := w0.updInst i fun x => { x with cut := true, claimDue := none } }
+  | .partition i on => { m with w := w0.updInst i fun x => { x with cut := on, candidateSince := e.t, claimDue := none } }
   | .watchFail _ _ => { m with w := w0 }
   | .panic i => { m with w := failW w0 "C13" "panic" s!"instance {i} panicked" }
   | .newErr _ => { m with w := w0 }
